@@ -150,7 +150,8 @@ CHECKS = {
             dict(name="nilvalues", run="^TestC13NilValues$", checks=(150, 2000), shards=(2, 8), shrinktime="5s"),
             dict(name="many", run="^TestC13ManyValues$", checks=(12, 120), shards=(2, 8), shrinktime="5s"),
             dict(name="concflush", run="^TestC13ConcurrentFlush$", checks=(60, 600), shards=(4, 16), shrinktime="5s"),
-            dict(name="regress", run="^TestRegress(ReverseQuery|FlushEarly|InitConflict)$", shards=(1, 1)),
+            dict(name="bulkwriters", run="^TestC13BulkWriters$", checks=(20, 200), shards=(2, 8), shrinktime="5s"),
+            dict(name="regress", run="^TestRegress(ReverseQuery|FlushEarly|InitConflict|IndexQueueWakeup)$", shards=(1, 1)),
         ],
     ),
     "C14": dict(
@@ -163,6 +164,7 @@ CHECKS = {
             dict(name="binkeys", run="^TestC14BinaryKeys$", checks=(150, 2000), shards=(2, 8), shrinktime="5s"),
             dict(name="concorder", run="^TestC14ConcurrentOrder$", checks=(200, 2000), shards=(2, 8), shrinktime="10s"),
             dict(name="handlermock", run="^TestC14HandlerMockEvents$", checks=(1000, 10000), shards=(2, 8), shrinktime="20s"),
+            dict(name="bulkwriters", run="^TestC14BulkWriters$", checks=(20, 200), shards=(2, 8), shrinktime="5s"),
             dict(name="regress", run="^TestRegressNilKeyAffected$", shards=(1, 1)),
         ],
     ),
